@@ -240,6 +240,17 @@ class SyncedList(SyncedCollection, MutableSequence):
                 [self._from_base(data=value, parent=self) for value in iterable_data]
             )
 
+    def pop(self, index=-1):  # noqa: D102
+        # The MutableSequence mixin reads and deletes in two separately
+        # synchronized steps, which is not safe with multiple threads.
+        with self._load_and_save:
+            ret = self._data.pop(index)
+        return ret
+
+    def reverse(self):  # noqa: D102
+        with self._load_and_save:
+            self._data.reverse()
+
     def remove(self, value):  # noqa: D102
         with self._load_and_save, self._suspend_sync:
             self._data.remove(self._from_base(data=value, parent=self))
